@@ -104,7 +104,9 @@ def campaign(c):
             L.append('let s%d = %s;' % (k, e)); names.append('s%d' % k)
         for k in range(r.below(3)):      # a stored value bound to a second (third) name: every name still emits it
             L.append('let al%d = %s;' % (k, r.choice(names))); names.append('al%d' % k)
-        for _ in range(1 + r.below(6)): L.append(r.choice(names) + ';')
+        for _ in range(1 + r.below(6)):
+            if r.chance(1, 5): L.append(r.choice(['import ipv4;', 'import eth;']))      # importing again is legal and changes nothing
+            L.append(r.choice(names) + ';')
         if r.chance(1, 2): L.append('f.client_close();')
         for _ in range(r.below(3)): L.append(r.choice(names) + ';')
         one(c, (('\n' if i % 2 else ' ').join(L) + ('\n' if i % 3 else '')).encode(), 'stored')
